@@ -36,15 +36,18 @@ from pv.pool import Script, hx, PoolError
 PROP = "C14"
 RULE = ("Deterministic exhaustive enumeration: every sequence of mode-changing calls {enddef, redef, begin_indep, end_indep, "
         "close+reopen rw, close+reopen ro, abort+create} of length 0..3 (quick) / 0..5 (thorough) from {created, opened rw, "
-        "opened ro}, each followed in the same script by the whole probe table (~75 units / ~125 calls from every API family, "
-        "valid arguments and single argument errors that take part in the documented precedence); plus every unit alone after "
-        "every prefix of depth <= 1, plus (thorough) the collective units on k=2 ranks and Hypothesis-drawn longer histories. "
-        "Oracle = reference automaton pv/modes.py (documented codes only, otherwise unconstrained) + no-effect observation "
-        "(dumpall, nreqs, buffer size, put_size, file bytes) after every rejected call + mode witnesses.  Non-trivial = a case "
-        "whose prefix performs >= 2 successful mode changes and in which a rejected probe is followed by an accepted probe; "
-        "distinct = distinct case hash.")
+        "opened ro}, each followed in the same script by the whole probe table (101 units / 145 calls from every API family: "
+        "define, attribute, rename, blocking put/get collective and independent in every form, nonblocking post, wait, wait_all, "
+        "cancel, sync, flush, fill, buffer attach/detach, inquiry; valid arguments and the single argument errors that take part in "
+        "the documented precedence).  Also: every unit alone in a fresh file after every prefix of depth <= 1 (2), the collective "
+        "units on k=2 ranks to depth 2 (3), everything again under PNETCDF_SAFE_MODE=1 to depth 2 (3), and Hypothesis-drawn longer "
+        "histories (depth+1..depth+9).  Oracle = reference automaton pv/modes.py (documented codes only, otherwise unconstrained), "
+        "mode check of both library layers after every prefix step, no-effect observation (dumpall, nreqs, buffer size, put_size, "
+        "file bytes) + mode witnesses after every rejected call.  Non-trivial = a case whose prefix performs >= 2 successful mode "
+        "changes and in which a rejected probe is followed by an accepted probe; distinct = distinct case hash.")
 ASSUMPTIONS = ["single node, local POSIX file system (file snapshots are coherent with MPI-IO writes), OpenMPI 4.1.4 / ROMIO",
-               "safe mode off (PNETCDF_SAFE_MODE unset, library not configured with --enable-debug)",
+               "the exhaustive enumeration runs with safe mode off (PNETCDF_SAFE_MODE unset, no --enable-debug); a shallower "
+               "enumeration repeats everything with PNETCDF_SAFE_MODE=1",
                "return codes are asserted only where documented (sources listed in pv/modes.py); other outcomes are "
                "unconstrained but rejected calls must still have no effect",
                "ncmpio driver (no burst buffer, no subfiling)"]
@@ -55,10 +58,12 @@ DEPTH_SAFE = {"quick": 2, "thorough": 3}      # all units again with PNETCDF_SAF
 ISOLATION_DEPTH = {"quick": 1, "thorough": 2}  # every unit alone in a fresh file
 N_HYP = {"quick": 10, "thorough": 80}         # per worker, random longer histories
 
-# Confirmed defect (see replays/C14/fill_var_rec-*.json): ncmpi_fill_var_rec ignores the errors its own
-# argument/mode checks found.  With the switch on, the fill_var_rec calls the dispatcher should reject are not
-# generated (counted as excluded_fill_var_rec_unchecked) so that the enumeration continues.
-EXCLUDE_FILL_VAR_REC_UNCHECKED = os.environ.get("C14_NO_EXCLUDE", "") == ""
+# Named generator switch for a confirmed defect (replays/C14/fill_var_rec-*.json): before /repo commit dab4a9b0
+# ncmpi_fill_var_rec ignored the errors its own argument/mode checks had found when safe mode is off.  The defect
+# is fixed in the tree now, so the switch is OFF by default and the calls are generated; on an unfixed tree
+# C14_EXCLUDE_FILL_VAR_REC=1 leaves out the fill_var_rec calls the dispatcher is documented to reject (counted as
+# excluded_fill_var_rec_unchecked) so that the enumeration can continue past that one shallow defect.
+EXCLUDE_FILL_VAR_REC_UNCHECKED = os.environ.get("C14_EXCLUDE_FILL_VAR_REC", "") not in ("", "0")
 
 PATH = "t.nc"
 X = 4
@@ -486,6 +491,7 @@ def build(case):
         b.must("open", path=hx(PATH), mode=1 if start == "open_rw" else 0)
     stt = MD.start_state(start)
     info["states"].append(stt.key())
+    b.items.append({"t": "modecheck", "after": start, "state": "%s/%s/%s" % stt.key(), "wit": emit_witnesses(b, stt)})
     # ---- prefix of mode-changing calls
     for op in prefix:
         calls, nst = MD.step(stt, op)
@@ -500,6 +506,9 @@ def build(case):
             b.checked("step", op, lambda: b.raw(op), calls[0][1], stt)
         stt = nst
         info["states"].append(stt.key())
+        # both layers of the library must now be in the mode the automaton is in
+        b.items.append({"t": "modecheck", "after": op, "state": "%s/%s/%s" % stt.key(), "wit": emit_witnesses(b, stt)})
+        b.fresh = False
     info["final"] = stt.key()
     info["nchanges"] = stt.nchanges
     # ---- probe units
@@ -573,6 +582,7 @@ def evaluate(b, res, d, case):
         s.update(sig)
         probs.append({"kind": kind, "msg": msg, "sig": s})
 
+    mode_broken = False      # a mode check after a prefix step already failed: later witness failures are consequences
     prev_obs = None          # observation taken immediately before the next call (None if something was called since)
     pending = None           # call item waiting for its 'after' observation
     seen_rejected_probe = False
@@ -583,6 +593,18 @@ def evaluate(b, res, d, case):
                 if rc != 0:
                     # the harness could not build its precondition: not a verdict about the property
                     raise SetupFailed("setup statement %s returned %s on rank %d" % (it["what"], rc, r))
+            prev_obs = pending = None
+            continue
+        if it["t"] == "modecheck":
+            for w in it["wit"]:
+                for r in range(k):
+                    rc = res.rc(w["n"], r)
+                    if rc not in w["allowed"]:
+                        mode_broken = True
+                        bad("mode_mismatch_after_step", "after %s (prefix %s from %s) the automaton is in %s but %s returned %s, expected %s" % (
+                            it["after"], "+".join(case["prefix"]) or "-", case["start"], it["state"], w["label"], rc, w["allowed"]),
+                            call=it["after"], state=it["state"], witness=w["label"], rc=rc)
+                        break
             prev_obs = pending = None
             continue
         if it["t"] == "obs":
@@ -630,7 +652,7 @@ def evaluate(b, res, d, case):
         for w in it["wit"]:
             for r in range(k):
                 rc = res.rc(w["n"], r)
-                if rc not in w["allowed"] and rejected:
+                if rc not in w["allowed"] and rejected and not mode_broken:
                     bad("mode_changed_by_rejected_call", "after %s was rejected (%s) in state %s, %s returned %s, expected %s: the mode changed" % (
                         it["label"], rcs, it["state"], w["label"], rc, w["allowed"]), call=it["label"], state=it["state"], witness=w["label"], unit=it["unit"])
                     break
@@ -833,11 +855,11 @@ def campaign(ctx):
                 ctx.stats["duplicate_failures"] += 1
                 continue
             seen_sig.add(key)
-            if len(ctx.failures) < 6:
+            if len(ctx.failures) < 2:
                 small = minimise(ctx, run, case, p)
                 ctx.failures.append({"case": small, "problems": [{kk: v for kk, v in p.items() if kk != "minimal_case"}], "label": part})
     n = N_HYP[ctx.tier]
-    if n:
+    if n and not ctx.failures:
         def hyp_case(c, case):
             case = {kk: v for kk, v in case.items() if kk != "part"}
             ctx.stats["cases_random"] += 1
